@@ -148,6 +148,10 @@ mut("C18", "dI2-shear-coef", E + "Models/HyperElastic/_state.py", "        coef 
 mut("C18", "spk-thickness-residual-only", E + "FEM/Operators/NonLinear.py", "        thickness = material.thickness\n        tangent_e *= thickness\n        residual_e *= thickness\n\n    K_e, R_e = __reorder_dofs(dim, nPe, tangent_e, residual_e)\n    return K_e, R_e\n\n\ndef GonzalezStressTensor", "        thickness = material.thickness\n        residual_e *= thickness\n\n    K_e, R_e = __reorder_dofs(dim, nPe, tangent_e, residual_e)\n    return K_e, R_e\n\n\ndef GonzalezStressTensor", "SecondPiolaKirchhoffStressTensor")
 mut("C03", "assembly-drop-empty-K", E + "Simulations/_simu.py", "        dict_KCMF = self.Construct_local_matrix_system(problemType)\n", "        dict_KCMF = {g: t for g, t in self.Construct_local_matrix_system(problemType).items() if t[0] is not None}\n", "Assembly")
 mut("C07", "weighted-jacobian-mean", E + "FEM/_mesh.py", "            values_e = jacobian_e_pg.max(1) / jacobian_e_pg.min(1)", "            values_e = jacobian_e_pg.max(1) / jacobian_e_pg.mean(1)", "unweighted")
+mut("C04", "lagrange-row-per-entry", E + "Simulations/Solvers.py", "    dofs_Dirichlet, inverse = np.unique(dofs_Dirichlet, return_inverse=True)\n    summed_values = np.zeros(dofs_Dirichlet.size, dtype=values_Dirichlet.dtype)\n    np.add.at(summed_values, inverse, values_Dirichlet)\n    values_Dirichlet = summed_values\n", "", "__Solver_2")
+mut("C04", "lagrange-last-value-wins", E + "Simulations/Solvers.py", "    np.add.at(summed_values, inverse, values_Dirichlet)\n", "    summed_values[inverse] = values_Dirichlet\n", "__Solver_2")
+mut("C04", "lagrange-dim-raw-count", E + "Simulations/_simu.py", "            nBc += np.unique(self.Bc_dofs_Dirichlet(problemType)).size", "            nBc += len(self.Bc_dofs_Dirichlet(problemType))", "_Bc_Lagrange_dim")
+same("C04", "lagrange-sum-by-bincount", E + "Simulations/Solvers.py", "    np.add.at(summed_values, inverse, values_Dirichlet)\n", "    summed_values += np.bincount(inverse, weights=values_Dirichlet, minlength=dofs_Dirichlet.size)\n")
 mut("C04", "lagrange-col-unscaled", E + "Simulations/Solvers.py", "    A[dofs_Dirichlet, linesDirichlet] = alpha\n", "    A[dofs_Dirichlet, linesDirichlet] = 1.0\n", "__Solver_2")
 mut("C02", "timo2d-shear-sign", E + "FEM/Elems/_beam.py", "            B_e_pg[:, :, 2, idx_rz] -= Nu_pg  # -θ", "            B_e_pg[:, :, 2, idx_rz] += Nu_pg  # -θ", "Get_beam_B_e_pg")
 mut("C01", "eb3d-torsion-on-ry", E + "FEM/Elems/_beam.py", "            B_e_pg[:, :, 1, idx_rx] = dN_e_pg[:, :, 0]  # torsion: drx/dx (Lagrange)", "            B_e_pg[:, :, 1, idx_rx + 1] = dN_e_pg[:, :, 0]  # torsion: drx/dx (Lagrange)", "Get_beam_B_e_pg")
